@@ -152,7 +152,9 @@ class Obligation(object):
         # random sub-slices: the solvers are often confused by the sheer
         # number of irrelevant facts; any subset of the assumptions is sound
         import random
-        rng = random.Random(hash(self.label) & 0xffff)
+        import zlib
+        # (deterministic across processes: str hashes are salted per run)
+        rng = random.Random(zlib.crc32(self.label.encode('utf-8')))
         base = set(picked_first) if picked_first else set()
         n = len(self.assumptions)
         for t in range(6):
